@@ -852,11 +852,25 @@ def run_recollect(fnames, tier):
             B = nodes.substitute(A, {target.id: Node(str(int(target.data) + 1))})
             fresh = list(nodeio.parse_smtlib(nodeio.write_smtlib_to_str(B)))
             smtlib.collect_information(B)
-            for shared, new in zip(nodes.dfs(B), nodes.dfs(fresh)):
-                n += 1
+            got = []
+            for shared in nodes.dfs(B):
                 try:
-                    w1, w2 = smtlib.get_bv_width(shared), smtlib.get_bv_width(new)
-                    s1, s2 = smtlib.get_sort(shared), smtlib.get_sort(new)
+                    got.append((smtlib.get_bv_width(shared),
+                                smtlib.get_sort(shared)))
+                except Exception:
+                    got.append(None)
+            # the reference values come from a state without history: the
+            # caches also answer structurally equal nodes, so a fresh copy
+            # queried in the same state would inherit a stale entry
+            smtlib.reset_information()
+            smtlib.collect_information(fresh)
+            for shared, new, g in zip(nodes.dfs(B), nodes.dfs(fresh), got):
+                n += 1
+                if g is None:
+                    continue
+                try:
+                    w1, s1 = g
+                    w2, s2 = smtlib.get_bv_width(new), smtlib.get_sort(new)
                 except Exception:
                     continue
                 if w1 != w2 or (s1 is None) != (s2 is None) or (
